@@ -102,7 +102,7 @@ Lemma body_pass st0 x : in16 (x + s) = true ->
                then exit_state st0 (x + s) else body_state st0 (x + s)).
 Proof.
   intros H16.
-  destruct st0 as [p0 fs0 ws0 gs0 [e0 er0 el0 oe0 h0 ra0 su0]].
+  destruct st0 as [p0 fs0 ws0 gs0 dp0 [e0 er0 el0 oe0 h0 ra0 su0]].
   set (st1 := body_state _ x).
   assert (H1 : step code st1 = Go (set_pc st1 (S (S i))) [x]).
   { rewrite (step_at code st1 _ Hbody). subst st1.
@@ -113,14 +113,14 @@ Proof.
   rewrite (step_at code st2 _ Hnext). subst st2 st1.
   cbn [pc body_state set_pc set_fors set_var set_ds ds d_set_env env fors whiles gosubs].
   assert (Hnv : forall nm, nm = None \/ nm = Some v ->
-    next_vars {| pc := S (S i); fors := rec0 :: fs0; whiles := ws0; gosubs := gs0;
+    next_vars {| pc := S (S i); fors := rec0 :: fs0; whiles := ws0; gosubs := gs0; dptr := dp0;
                  ds := {| env := setv e0 v x; err := er0; erl := el0; onerr := oe0; handling := h0;
                           resume_at := ra0; susp := su0 |} |} (S (S i)) 0 [nm] =
     if (if s >=? 0 then x + s >? b else b >? x + s)
-    then IEnded {| pc := S (S i); fors := fs0; whiles := ws0; gosubs := gs0;
+    then IEnded {| pc := S (S i); fors := fs0; whiles := ws0; gosubs := gs0; dptr := dp0;
                  ds := {| env := setv e0 v (x + s); err := er0; erl := el0; onerr := oe0; handling := h0;
                           resume_at := ra0; susp := su0 |} |}
-    else ILoop {| pc := S i; fors := rec0 :: fs0; whiles := ws0; gosubs := gs0;
+    else ILoop {| pc := S i; fors := rec0 :: fs0; whiles := ws0; gosubs := gs0; dptr := dp0;
                  ds := {| env := setv e0 v (x + s); err := er0; erl := el0; onerr := oe0; handling := h0;
                           resume_at := ra0; susp := su0 |} |}).
   { intros nm Hnm. cbn [next_vars].
@@ -205,11 +205,11 @@ Proof.
   match goal with |- context [iterate ?x _ _ _] => set (st2 := x) end.
   assert (F : fors st2 = rec0 :: tl (fors st2)) by (destruct st; reflexivity).
   assert (G : getv (env (ds st2)) v = a).
-  { destruct st as [p0 fs0 ws0 gs0 [e0 er0 el0 oe0 h0 ra0 su0]]. simpl. apply getv_setv_same. }
+  { destruct st as [p0 fs0 ws0 gs0 dp0 [e0 er0 el0 oe0 h0 ra0 su0]]. simpl. apply getv_setv_same. }
   rewrite (next_iterate st2 a None F G (or_introl eq_refl) H16).
   assert (Hp : (if s >=? 0 then a + s >? b else b >? a + s) = true).
   { destruct (s >=? 0) eqn:E; lia. }
-  rewrite Hp. subst st2. destruct st as [p0 fs0 ws0 gs0 [e0 er0 el0 oe0 h0 ra0 su0]].
+  rewrite Hp. subst st2. destruct st as [p0 fs0 ws0 gs0 dp0 [e0 er0 el0 oe0 h0 ra0 su0]].
   unfold exit_state, set_fors, set_var, set_ds, set_pc, d_set_env; simpl.
   rewrite setv_setv. reflexivity.
 Qed.
